@@ -52,8 +52,32 @@ def paysFor (log : List Event) (k id : Nat) : List Event := log.filter (isPayFor
 
 /-! ### recipients are never treasuries -/
 
+theorem moduleOfHex_cases (h : Str) (m : Holder) (hm : moduleOfHex h = some m) : m = .distr ∨ m = .pool ∨ m = .collector := by
+  unfold moduleOfHex at hm
+  split at hm
+  · split at hm
+    · cases hm; exact Or.inl rfl
+    · split at hm
+      · cases hm; exact Or.inr (Or.inl rfl)
+      · split at hm
+        · cases hm; exact Or.inr (Or.inr rfl)
+        · cases hm
+  · cases hm
+
 theorem holderOfHex_ne_treasury (h : Str) (k : Nat) : holderOfHex h ≠ .treasury k := by
   unfold holderOfHex
+  split
+  · rename_i m hm
+    rcases moduleOfHex_cases h m hm with e | e | e <;> subst e <;> simp
+  · split <;> simp
+
+/-- a payable address is no module account: its holder is an ordinary account or address -/
+theorem holderOfHex_payable (h : Str) (hp : payable h = true) : holderOfHex h ≠ .distr ∧ holderOfHex h ≠ .pool ∧ holderOfHex h ≠ .collector := by
+  unfold payable at hp
+  simp only [Bool.and_eq_true, Option.isNone_iff_eq_none] at hp
+  unfold holderOfHex
+  rw [hp.2]
+  simp only
   split <;> simp
 
 /-! ### one payout -/
